@@ -813,6 +813,7 @@ impl World {
     fn resolve_id(&mut self, id: IdSpec) -> Option<u16> {
         match id {
             IdSpec::Fresh => Some(self.fresh_inbound_id()),
+            IdSpec::LowestFree => (1..=u16::MAX).find(|id| !self.inbound_qos2_unreleased.contains(id)),
             IdSpec::Raw(0) => None,
             IdSpec::Raw(n) => Some(n),
             IdSpec::SameAs(n) => self.inbound_publish_ids.get(n).copied().flatten(),
